@@ -61,6 +61,9 @@ U_C02(zz) ==
     \cup {V1(<<U1("n"), DataF("d", md), U1("z")>>, "full", FALSE) :
              md \in {SzConst(0), SzConst(2), SzField("n"), Defer(EBin("mul", EF("n"), EC(2))), Lam(EBin("add", EF("n"), EC(1))),
                      SzMarker(<<0>>, FALSE, TRUE), SzMarker(<<0>>, TRUE, TRUE), SzMarker(<<65, 65>>, FALSE, TRUE)}}
+    \* two sizes taken from one list by indices whose hashes coincide (-1 and -2)
+    \cup {VDecl([C0 |-> Class(DefaultOpts, <<RepCountF("sizes", U1("e"), SzConst(2), NoCond, 0), DataF("d", Defer(EIdx(EF("sizes"), EC(0 - 1)))),
+                                             DataF("q", Defer(EIdx(EF("sizes"), EC(0 - 2)))), U1("z")>>)], "full", 1, FALSE)}
     \* a read-to-end body is consistent only in last position
     \cup {V1(<<U1("n"), U1("z"), DataF("d", SzRegex("EOS", FALSE, TRUE))>>, "full", FALSE)}
     \cup {VDecl([C0 |-> Class(DefaultOpts, <<S1("n"), U1("t"), RepCountF("r", e, c, w, 0), U1("z")>>), C1 |-> Sub1], "full", 1, FALSE) :
@@ -124,6 +127,10 @@ U_C03V(zz) == {V1(<<IntF("a", n, sg, e), IntF("b", 2, FALSE, "little"), DataF("d
                 VDecl([C0 |-> Class([DefaultOpts EXCEPT !.endian = "little"], <<IntF("a", 2, FALSE, "default"), RefF("s", "C1"), BitsF("h", 4), BitsF("l", 12)>>),
                        C1 |-> Class(DefaultOpts, <<IntF("x", 2, FALSE, "default"), DataF("d", SzMarker(<<0>>, FALSE, TRUE))>>)], "full", 1, FALSE)}
 
+RECURSIVE DeepChain(_, _)
+DeepChain(n, last) ==
+    IF n = 0 THEN PktV("C0", <<[n |-> "t", v |-> IntV(0)], [n |-> "v", v |-> IntV(last)], [n |-> "o", v |-> NoneV]>>)
+    ELSE PktV("C0", <<[n |-> "t", v |-> IntV(1)], [n |-> "v", v |-> IntV(1)], [n |-> "o", v |-> DeepChain(n - 1, last)]>>)
 \* pack failures (C12): out-of-range and wrongly typed values at every depth, colliding positions, a before-pack hook that fails
 \* (AutoLength of an optional field that is absent), top level and nested
 U_C12V(zz) ==
@@ -150,7 +157,11 @@ U_C12V(zz) ==
      \* down (the innermost default packet holds an unrepresentable value) is reported with one entry per level
      VDecl([C0 |-> Class(DefaultOpts, <<U1("t"), WithDflt(U1("v"), 300),
                                         OptF("o", RefSelF("e", EC(0), <<[key |-> 0, alt |-> RefF("", "C0")]>>, "lambda", IntV(0)), SzField("t"))>>)],
-           "full", 1, FALSE)}
+           "full", 1, FALSE),
+     \* ... and the same class nested 20 levels deep (a failure under more enclosing references than fit a screen)
+     VDecl([C0 |-> Class(DefaultOpts, <<U1("t"), WithDflt(U1("v"), 300),
+                                        OptF("o", RefSelF("e", EC(0), <<[key |-> 0, alt |-> RefF("", "C0")]>>, "lambda", IntV(0)), SzField("t"))>>)],
+           "given", 1, FALSE) @@ [ks |-> {DeepChain(20, 300).vals, DeepChain(17, 256).vals, DeepChain(16, 5).vals}]}
 
 \* -------------------------------------------------------------------- C07 (pack side)
 U_C07V(zz) == {V1(BitFields(ws), "full", TRUE) : ws \in {<<4, 4>>, <<3, 5>>, <<1, 7>>, <<1, 6, 1>>, <<8>>}}
